@@ -1,0 +1,79 @@
+//go:build verif
+
+package memberlist
+
+import (
+	"context"
+	"time"
+
+	"github.com/go-kit/log"
+	"github.com/hashicorp/memberlist"
+	"github.com/prometheus/client_golang/prometheus"
+
+	"github.com/grafana/dskit/services"
+)
+
+// NewDetachedKV builds, for verification builds only, a KV that is detached from the
+// network: its service does not create a memberlist instance nor a TCP transport. It only
+// initialises the broadcast queues and marks the delegate ready, so that a harness can
+// play the network itself through the exported delegate methods (GetBroadcasts, NotifyMsg,
+// LocalState, MergeRemoteState). numNodes plays the role of memberlist's NumMembers.
+func NewDetachedKV(cfg KVConfig, logger log.Logger, registerer prometheus.Registerer, numNodes func() int) *KV {
+	m := NewKV(cfg, logger, nil, registerer)
+
+	starting := func(_ context.Context) error {
+		m.localBroadcasts = &memberlist.TransmitLimitedQueue{NumNodes: numNodes, RetransmitMult: cfg.RetransmitMult}
+		m.gossipBroadcasts = &memberlist.TransmitLimitedQueue{NumNodes: numNodes, RetransmitMult: cfg.RetransmitMult}
+		m.delegateReady.Store(true)
+		return nil
+	}
+
+	// Same as KV.running, without joining the cluster, rejoin and propagation delay tracker.
+	running := func(ctx context.Context) error {
+		if m.cfg.NotifyInterval > 0 {
+			notifTicker := time.NewTicker(m.cfg.NotifyInterval)
+			defer notifTicker.Stop()
+			go m.monitorKeyNotifications(ctx, notifTicker.C)
+		}
+
+		var obsoleteEntriesTickerChan <-chan time.Time
+		if m.cfg.ObsoleteEntriesTimeout > 0 {
+			obsoleteEntriesTicker := time.NewTicker(m.cfg.ObsoleteEntriesTimeout)
+			defer obsoleteEntriesTicker.Stop()
+			obsoleteEntriesTickerChan = obsoleteEntriesTicker.C
+		}
+
+		for {
+			select {
+			case <-obsoleteEntriesTickerChan:
+				m.cleanupObsoleteEntries()
+			case <-ctx.Done():
+				return nil
+			}
+		}
+	}
+
+	stopping := func(_ error) error {
+		close(m.shutdown)
+		return nil
+	}
+
+	m.NamedService = services.NewBasicService(starting, running, stopping).WithName("memberlist_kv_detached")
+	return m
+}
+
+// VerifInvalidates exposes ringBroadcast.Invalidates for verification builds: whether a queued
+// broadcast (oldKey, oldContent, oldVersion) is superseded by (newKey, newContent, newVersion).
+func VerifInvalidates(newKey string, newContent []string, newVersion uint, oldKey string, oldContent []string, oldVersion uint) bool {
+	n := ringBroadcast{key: newKey, content: newContent, version: newVersion}
+	o := ringBroadcast{key: oldKey, content: oldContent, version: oldVersion}
+	return n.Invalidates(o)
+}
+
+// VerifQueuedBroadcasts returns how many broadcasts are waiting in the local and gossip queues.
+func (m *KV) VerifQueuedBroadcasts() (local, gossip int) {
+	if !m.delegateReady.Load() {
+		return 0, 0
+	}
+	return m.localBroadcasts.NumQueued(), m.gossipBroadcasts.NumQueued()
+}
